@@ -356,3 +356,20 @@ Definition honest (W : world) (l : nlist) : bool :=
   | DocOrder => sorted W (items l)
   | RevOrder => sorted W (rev (items l))
   end.
+
+(* ---- observations used in the statements about several documents *)
+Fixpoint nodupb (l : list lnode) : bool :=
+  match l with [] => true | x :: r => negb (existsb (lnode_eqb x) r) && nodupb r end.
+
+Fixpoint drop_while_eq (a : nat) (l : list nat) : list nat :=
+  match l with [] => [] | b :: r => if a =? b then drop_while_eq a r else l end.
+
+(* the documents of the list form contiguous blocks (no d1, d2, d1) *)
+Fixpoint groupedb (ds : list nat) : bool :=
+  match ds with
+  | [] => true
+  | a :: r => negb (existsb (Nat.eqb a) (drop_while_eq a r)) && groupedb r
+  end.
+
+Definition wvalid (W : world) (n : lnode) : bool :=
+  (fst n <? length W) && valid (wtree W (fst n)) (snd n).
